@@ -248,8 +248,7 @@ func magnetMain(rc *RunCtx) {
 					case 9: // consistent with its lie: blocks of a (forged) dictionary of the size it voted for
 						if lie > 0 && lie <= 128<<20 {
 							reply.TotalSize = lie
-							n := min(16384, lie-mm.Piece*16384)
-							if n > 0 && int64(len(reply.Data)) != n {
+							if n := min(16384, lie-mm.Piece*16384); n > 0 {
 								reply.Data = drawBytes(st, int(n))
 							}
 						}
